@@ -56,3 +56,21 @@ Theorem C09_iterate :
               (ch = false -> (0 < n)%nat -> try_bins false bins out (p + Z.of_nat k) = Ok None).
 Proof. exact C11_steps_proof. Qed.
 Print Assumptions C09_iterate.
+
+(* ---- a detection IS a match of the pattern, in the declarative sense (on top of C13_sound) ---- *)
+From Theo Require Import CompileStatements ApplyStatements Proofs_Apply.
+
+Theorem C09_detect_sound :
+  forall m d input r, macro_ok m -> make_detector m = Ok d -> detect d input = Ok (Some r) ->
+    0 <= r_location r /\ 0 <= r_length r /\ r_location r + r_length r <= zlen input /\
+    concat (r_matched r) = firstn (Z.to_nat (r_length r)) (skipn (Z.to_nat (r_location r)) input) /\
+    length (r_matched r) = length (m_rule m) /\
+    (forall i p range, nth_error (m_rule m) i = Some p -> nth_error (r_matched r) i = Some range ->
+        match slot_nonterminal (tk p) with
+        | Some n => Derives base_grammar (Nt (N.of_nat n)) (kinds range)
+        | None => exists t, range = [t] /\ tk t = tk p
+        end) /\
+    (forall c p, In c (m_cc m) -> znth (m_rule m) c = Some p ->
+        exists t, znth (r_matched r) c = Some [t] /\ ttext t = ttext p).
+Proof. exact C09_detect_sound_proof. Qed.
+Print Assumptions C09_detect_sound.
